@@ -164,7 +164,7 @@ def known_signature(dev):
     return dev
 
 
-def pmap(fn, jobs, workers=None, stall_timeout=300, retries=2):
+def pmap(fn, jobs, workers=None, stall_timeout=1200, retries=2):
     """Parallel map over processes (fork, NON-daemonic workers so that library code may open its own pool) with a
     watchdog: if no job completes for `stall_timeout` seconds the worker processes are killed and the unfinished
     jobs are retried in a fresh executor (a rare lost-wakeup deadlock of ProcessPoolExecutor was observed once:
